@@ -17,7 +17,9 @@ ParamSets == <<
   [a1 |-> 2,  a2 |-> 1,  b |-> 1,  c1 |-> 6, c2 |-> 7,  c3 |-> 8,  c4 |-> 1],   \* b # 0, a2 > 0
   [a1 |-> 0,  a2 |-> 0,  b |-> 0,  c1 |-> 8, c2 |-> 8,  c3 |-> 8,  c4 |-> 2],   \* a1 = a2 = 0
   [a1 |-> -2, a2 |-> -3, b |-> -1, c1 |-> 7, c2 |-> 9,  c3 |-> 10, c4 |-> 0],   \* negative a1, b; c4 = 0
-  [a1 |-> 1,  a2 |-> 2,  b |-> 3,  c1 |-> 0, c2 |-> 5,  c3 |-> 4,  c4 |-> 6]    \* c1 = 0, long tool flange
+  [a1 |-> 1,  a2 |-> 2,  b |-> 3,  c1 |-> 0, c2 |-> 5,  c3 |-> 4,  c4 |-> 6],   \* c1 = 0, long tool flange
+  [a1 |-> 2,  a2 |-> 1,  b |-> 0,  c1 |-> 5, c2 |-> 6,  c3 |-> -7, c4 |-> 1],   \* c3 < 0 (forward kinematics only)
+  [a1 |-> 1,  a2 |-> 0,  b |-> 2,  c1 |-> 4, c2 |-> 6,  c3 |-> 0,  c4 |-> 3]    \* a2 = c3 = 0 (forward kinematics only)
 >>
 
 VARIABLES ps, e, links
